@@ -211,6 +211,8 @@ class Repo:
         self.funcs: Dict[str, FuncInfo] = {}
         self.classes: Dict[str, ClassInfo] = {}
         self._load()
+        global CURRENT_REPO
+        CURRENT_REPO = self   # for helpers that only receive a FuncInfo (callee return annotations)
 
     # -- loading -------------------------------------------------------------
     def _load(self) -> None:
@@ -578,6 +580,86 @@ def rules_for(prop: str, tier: str) -> List[RuleDef]:
     return sorted(out, key=lambda r: r.rid)
 
 
+CURRENT_REPO = None
+RESTRUCTURED_STMTS = 6
+UNGATED_RULES = {"C11.1"}  # per-site lints that interpret whatever code is there
+
+
+def _restructured(repo: "Repo", qual: str, _alpha) -> Optional[str]:
+    """Why `qual` counts as restructured relative to the validated tree (None: a small edit or untouched)."""
+    memo = repo.__dict__.setdefault("_restructured_memo", {})
+    if qual in memo:
+        return memo[qual]
+    why = None
+    fi = repo.funcs.get(qual)
+    if fi is not None:
+        n = _alpha.edit_size(repo, qual)
+        ref = _alpha.shapes()
+        if n is None:
+            why = f"`{qual}` does not exist on the validated tree" if ref else None
+        elif n >= 1000:
+            why = f"the parameter list of `{qual}` changed (its callers and the rule's reading of its arguments are no longer valid)"
+        elif n > RESTRUCTURED_STMTS:
+            why = f"`{qual}` was restructured ({n} statements differ from the validated tree)"
+        elif n >= 1:
+            # a small edit that hands part of the mechanism to a function that is new or was itself restructured
+            by_last: Dict[str, List[str]] = {}
+            for q in repo.funcs:
+                by_last.setdefault(q.split(".")[-1], []).append(q)
+            called = {
+                (c.func.id if isinstance(c.func, ast.Name) else c.func.attr)
+                for c in ast.walk(fi.node)
+                if isinstance(c, ast.Call) and isinstance(c.func, (ast.Name, ast.Attribute))
+            }
+            for name in sorted(called):
+                for q in by_last.get(name, []):
+                    if q == qual:
+                        continue
+                    m = _alpha.edit_size(repo, q)
+                    if m is None:
+                        why = f"`{qual}` now delegates to `{name}`, a function the validated tree did not have"
+                    elif m > RESTRUCTURED_STMTS:
+                        why = f"`{qual}` was edited and relies on `{name}`, which was restructured ({'signature' if m >= 1000 else str(m) + ' statements'} changed)"
+                    if why:
+                        break
+                if why:
+                    break
+    memo[qual] = why
+    return why
+
+
+def _tree_restructured(repo: "Repo", _alpha) -> Optional[str]:
+    """Why the tree as a whole is in 're-validate the mechanism rules' state: a mechanism spread over several
+    functions was reshaped even though no single function changed much (new helper, interface change,
+    edits in three or more functions, more than 8 statements in total)."""
+    if "_tree_restructured_memo" in repo.__dict__:
+        return repo.__dict__["_tree_restructured_memo"]
+    why = None
+    if _alpha.shapes():
+        new, big, edited, total = [], [], [], 0
+        for q in repo.funcs:
+            n = _alpha.edit_size(repo, q)
+            if n is None:
+                new.append(q)
+            elif n > RESTRUCTURED_STMTS:
+                big.append(q)
+            elif n:
+                edited.append(q)
+                total += n
+        if new:
+            why = f"the tree has a function the validated tree did not have (`{new[0]}`)"
+        elif big:
+            why = f"`{big[0]}` was restructured"
+        elif len(edited) >= 3:
+            why = f"{len(edited)} functions were edited together ({', '.join('`' + e.split('.')[-1] + '`' for e in edited[:4])})"
+        elif total > 8:
+            why = f"{total} statements were changed in {len(edited)} functions"
+        if why:
+            why += ": a mechanism that spans functions may have been reshaped"
+    repo.__dict__["_tree_restructured_memo"] = why
+    return why
+
+
 def run_property(
     prop: str,
     tier: str,
@@ -684,6 +766,29 @@ def run_property(
             matched_known.append({"finding": hit, "where": v.where})
         else:
             new_violations.append(v)
+
+    # Restructuring gate. A *mechanism* rule (everything except the generic lints) was validated
+    # against the shape a function had on the reference tree. When that function has since been
+    # restructured (more than RESTRUCTURED_STMTS statements differ, or it now delegates to a helper the
+    # reference tree did not have) a mismatch says "the rule no longer knows this code", not "the
+    # property is broken": it is reported as an analysis error (exit 2, re-validate the rule), never as
+    # a violation. Small edits - the size of every realistic slip - keep their VIOLATION.
+    from . import alpha as _alpha
+
+    undecided: Dict[Tuple[str, str], List[Instance]] = {}
+    kept: List[Instance] = []
+    for v in new_violations:
+        why = None if v.rule.startswith("GEN.") or v.rule in UNGATED_RULES else (_restructured(repo, v.function, _alpha) or _tree_restructured(repo, _alpha))
+        if why:
+            undecided.setdefault((v.rule, why), []).append(v)
+        else:
+            kept.append(v)
+    new_violations = kept
+    for (rid, why), vs in sorted(undecided.items()):
+        errors.append(
+            f"{rid}: {why}; {len(vs)} obligation(s) of this rule could not be matched "
+            f"(first: [{vs[0].construct[:80]}] at {vs[0].where}) - the rule must be re-validated against the new shape"
+        )
 
     for mk in matched_known:
         k = mk["finding"]
